@@ -7,6 +7,7 @@ NOTE = ("Trusted base: symnp's model of the NumPy surface (symnp/proxy.py), the 
         "(rounding/overflow/NaN propagation not modelled). Claim per obligation: for all real inputs in the harness domain, on every "
         "explored path; undecided obligations are listed in the evidence and not claimed.")
 CHECKS = {
+ 'C04': "Consistent measurements a = s1 R(q)^T g, m = s2 R(q)^T m_ref are built in the harness from a symbolic truth q, dip and scales; TRIAD, ecompass/am2DCM (both frames), Tilt/acc2q are executed on them and the solver decides that the returned rotation maps the references onto the measurements (equals R(q)^T where a matrix is returned); Davenport through the eig certificate contract (the truth is a unit eigenvector of the K the code built). SAAM/FAMC on one-parameter families and QUEST's characteristic-polynomial root are thorough-tier; FQA, AQUA, OLEQ, FLAE are not claimed.",
  'C20': "Sensors(quaternions=Q) is executed on N=3 symbolic unit rows and symbolic reference vectors with the module's random generator replaced by the RNG contract (fresh symbol per draw): the solver decides that rotations, accelerometers, magnetometers, quaternions and gyroscopes (bias and noise identified by their symbols, degrees and radians) are exactly the stated functions of the ground truth, for zero and symbolic noise levels.",
  'C15': "Differential symbolic execution on concrete place strata (equator, prime meridian, poles, +-180) with a symbolic height: constructor vs method, a fresh object vs one that has already answered another query (date given again and date=None), ENU vs NED, H/F/I/D against X/Y/Z (inverse-trig results through their arguments), +180 vs -180; the solver separates differing computations (polynomials in a/r(h)). The constructor's decimal-date round trip is enumerated over the 151 grid dates.",
  'C14': "Compositional: the longitude-harmonic recursion (symbolic longitude, m<=12), the Legendre recursion and Schmidt factors of denormalize_coefficients (symbolic geocentric latitude, against an independent derivative-formula generator), the synthesis loop and geocentric-to-geodetic rotation of magnetic_field (executed on fresh symbols for the Legendre / longitude / Gauss arrays through a harness subclass stub) and geodetic2spherical are each decided by the solver on the real code; coefficient loading and date->file selection are finite domains enumerated completely.",
